@@ -3,14 +3,19 @@ package props
 import (
 	"encoding/json"
 	"fmt"
+	"strings"
 	"sync"
 	"testing"
 
 	"github.com/syndtr/goleveldb/leveldb"
+	"pgregory.net/rapid"
 
 	"github.com/lidofinance/dc4bc/client/modules/state"
 	"github.com/lidofinance/dc4bc/client/services/fsmservice"
+	"github.com/lidofinance/dc4bc/fsm/fsm"
 	"github.com/lidofinance/dc4bc/fsm/state_machines"
+	"github.com/lidofinance/dc4bc/fsm/types/requests"
+	sif "github.com/lidofinance/dc4bc/fsm/state_machines/signing_proposal_fsm"
 
 	"verif/harness/vstat"
 )
@@ -150,6 +155,7 @@ func TestC19(t *testing.T) {
 
 	if replaying() {
 		c19Signing(t, st)
+		rapidProp(t, st, "wide-walks", 0, 17, c19GenWide, func(w c05Walk) *viol { return c19RunWide(st, w) })
 		var rp c19Replay
 		if replayFor(t, "states", &rp) {
 			st.Eval()
@@ -166,6 +172,7 @@ func TestC19(t *testing.T) {
 	}
 
 	t.Run("signing-continue", func(t *testing.T) { c19Signing(t, st) })
+	rapidProp(t, st, "wide-walks", perShard(pick(600, 30000)), 17, c19GenWide, func(w c05Walk) *viol { return c19RunWide(st, w) })
 	pairs := c05Pairs(pick(3, 4))
 	si, sn := shard()
 	for k, p := range pairs {
@@ -242,4 +249,159 @@ func TestC19(t *testing.T) {
 		}
 	}
 	st.SetExhaustive(true)
+}
+
+// ---- wide walks: one in-memory instance carried through a whole history of a round with many participants, against a
+// twin that is restored from its persisted form before every event ------------------------------------------------------
+
+func c19GenWide(rt *rapid.T) c05Walk {
+	n := rapid.IntRange(6, 24).Draw(rt, "n")
+	w := c05Walk{N: n, T: rapid.IntRange(2, n).Draw(rt, "t")}
+	k := rapid.IntRange(2*n, 9*n+60).Draw(rt, "len")
+	for i := 0; i < k; i++ {
+		w.Steps = append(w.Steps, c05Choice{Useful: rapid.IntRange(0, 19).Draw(rt, "useful") < 18, Idx: rapid.IntRange(0, 8000).Draw(rt, "idx")})
+	}
+	return w
+}
+
+func c19RunWide(st *vstat.Stats, w c05Walk) *viol {
+	return safely("panic:wide", func() *viol {
+		alphaD, alphaS := fxAlphabet(w.N, w.T), sxAlphabet(w.N)
+		dump := fxInitialDump()
+		mem, err := state_machines.FromDump(dump)
+		if err != nil {
+			return violf("harness", "initial restore: %v", err)
+		}
+		var o fxOracle
+		state := string(fsm.StateGlobalIdle)
+		delivered := map[int]bool{}
+		batch := "B1"
+		var hist []string
+		memSteps, maxMem, signingSteps := 0, 0, 0
+		for si, c := range w.Steps {
+			var name string
+			var data []byte
+			var label string
+			var pid int
+			signing := strings.HasPrefix(state, "state_signing_") || state == string(sif.StateSigningIdle)
+			if !signing {
+				var e fxEvent
+				if u := usefulEvents(o, w.N); c.Useful && len(u) > 0 && !o.Cancelled {
+					e = u[c.Idx%len(u)]
+				} else {
+					e = alphaD[c.Idx%len(alphaD)]
+				}
+				name, data, label, pid = e.Name, fxData(e, w.N, w.T), e.String(), e.Pid
+			} else {
+				var e sxEvent
+				switch {
+				case !c.Useful:
+					e = alphaS[c.Idx%len(alphaS)]
+				case state == string(sif.StateSigningIdle):
+					batch = []string{"B1", "B2"}[c.Idx%2]
+					e = sxEvent{string(sif.EventSigningStart), c.Idx % w.N, batch, "valid"}
+				case state == string(sif.StateSigningAwaitPartialSigns):
+					var left []int
+					for p := 0; p < w.N; p++ {
+						if !delivered[p] {
+							left = append(left, p)
+						}
+					}
+					if len(left) == 0 {
+						e = alphaS[c.Idx%len(alphaS)]
+					} else if p := left[c.Idx%len(left)]; c.Idx%11 == 0 {
+						e = sxEvent{string(sif.EventSigningPartialSignError), p, "", "valid"}
+					} else {
+						e = sxEvent{string(sif.EventSigningPartialSignReceived), p, batch, "valid"}
+					}
+				default: // collected or cancelled: the node's housekeeping restart
+					e = sxEvent{string(sif.EventSigningRestart), 0, "", "valid"}
+				}
+				name, data, label, pid = e.Name, sxData(e), e.String(), e.Pid
+				signingSteps++
+			}
+			instB, err := state_machines.FromDump(dump)
+			if err != nil {
+				return violf("wide:not-restorable", "n=%d t=%d after %v the round (state %q) cannot be loaded back: %v", w.N, w.T, hist, state, err)
+			}
+			var ra, rb fxResult
+			memNext := mem
+			if name == string(sif.EventSigningRestart) && c.Useful {
+				// the node's own housekeeping step (not a board event): applied directly, as node_service does
+				direct := func(inst *state_machines.FSMInstance) fxResult {
+					resp, d, err := inst.Do(sif.EventSigningRestart, requests.DefaultRequest{CreatedAt: fxT0})
+					if err != nil {
+						return fxResult{Err: err.Error()}
+					}
+					return fxResult{Accepted: true, State: string(resp.State), Dump: d, Data: resp.Data}
+				}
+				ra, rb = direct(mem), direct(instB)
+			} else {
+				ra, memNext = fxStepKeep(mem, name, data, fxT0)
+				rb = fxStepOn(instB, name, data, fxT0)
+			}
+			hist = append(hist, fmt.Sprintf("%s->%v", label, ra.Accepted))
+			where := fmt.Sprintf("n=%d t=%d, step %d (the in-memory round has lived through %d accepted events since it was last loaded), state %q, event %s", w.N, w.T, si, memSteps, state, label)
+			if ra.Accepted != rb.Accepted {
+				return violf("wide:continue-differs", "%s: in memory accepted=%v (%s), restored accepted=%v (%s); history %v", where, ra.Accepted, ra.Err, rb.Accepted, rb.Err, hist)
+			}
+			if !ra.Accepted {
+				// a refused event is not saved: the node loads the round afresh for the next message
+				mem, _ = state_machines.FromDump(dump)
+				memSteps = 0
+				continue
+			}
+			if ra.State != rb.State {
+				return violf("wide:continue-differs", "%s: next state in memory %q, restored %q; history %v", where, ra.State, rb.State, hist)
+			}
+			if a, b := jsonOf(ra.Data), jsonOf(rb.Data); a != b {
+				return violf("wide:continue-differs", "%s: response data differs: in memory %s, restored %s", where, clip(a, 300), clip(b, 300))
+			}
+			if string(ra.Dump) != string(rb.Dump) {
+				return violf("wide:continue-differs", "%s: resulting round differs (%s)", where, jsonDiff(string(ra.Dump), string(rb.Dump)))
+			}
+			mem, dump = memNext, ra.Dump
+			memSteps++
+			maxMem = max(maxMem, memSteps)
+			// bookkeeping for choosing useful events
+			if !signing {
+				o = c19TrackDKG(o, pid, ra.State, w.N)
+			} else {
+				switch name {
+				case string(sif.EventSigningStart):
+					delivered = map[int]bool{}
+				case string(sif.EventSigningPartialSignReceived), string(sif.EventSigningPartialSignError):
+					delivered[pid] = true
+				}
+			}
+			state = ra.State
+		}
+		size := "6-9"
+		if w.N >= 17 {
+			size = "17-24"
+		} else if w.N >= 10 {
+			size = "10-16"
+		}
+		st.Class("wide-end:" + state + ":n=" + size)
+		if maxMem >= 5 {
+			st.NonTrivial("wide/" + strings.Join(hist, ";"))
+			st.SampleEvery(100, map[string]any{"n": w.N, "t": w.T, "wide_walk_length": len(hist), "longest_in_memory_stretch": maxMem, "signing_phase_steps": signingSteps, "end_state": state})
+		}
+		return nil
+	})
+}
+
+// c19TrackDKG keeps the C05 reference summary along an accepted event (only to pick useful next events).
+func c19TrackDKG(o fxOracle, pid int, newState string, n int) fxOracle {
+	ph, cancelled, ok := fxImplPhase(newState)
+	if !ok {
+		return o
+	}
+	if ph != o.Phase || cancelled != o.Cancelled {
+		return fxOracle{Phase: ph, Cancelled: cancelled}
+	}
+	if pid >= 0 && pid < n {
+		o.Delivered |= 1 << uint(pid)
+	}
+	return o
 }
